@@ -152,7 +152,7 @@ func scenTokens(rng *rand.Rand, tr *sim.Trace, seg int, events int) {
 				from = &net.UDPAddr{IP: src.IP, Port: 1024 + rng.Intn(60000)} // same IP, another port: must work
 			}
 			use := append([]byte{}, tok...)
-			switch rng.Intn(10) {
+			switch rng.Intn(11) {
 			case 0:
 				use[rng.Intn(len(use))] ^= 1 << uint(rng.Intn(8))
 			case 1:
@@ -167,6 +167,11 @@ func scenTokens(rng *rand.Rand, tr *sim.Trace, seg int, events int) {
 				from = other // the token of src used from another IP
 			case 6:
 				use = foreignTok
+			case 7:
+				// a token another node issued to an IP this node has never issued one to (if nodes shared their
+				// secret, it would be this node's own token for that IP)
+				from = &net.UDPAddr{IP: net.IPv4(49, byte(rng.Intn(250)), byte(rng.Intn(250)), byte(1+rng.Intn(250))).To4(), Port: 1024 + rng.Intn(60000)}
+				use = foreign.token(from, viaGet)
 			}
 			id, ih := randID(rng), randID(rng)
 			var q *query
